@@ -1046,9 +1046,11 @@ func (o *ovsdbClient) monitor(ctx context.Context, cookie MonitorCookie, reconne
 	case ovsdb.ConditionalMonitorSinceRPC:
 		var reply ovsdb.MonitorCondSinceReply
 		err = o.rpcClient.CallWithContext(ctx, monitor.Method, args, &reply)
-		if err == nil && reply.Found {
+		if err == nil {
+			// whether or not the id we sent was found, the reply is
+			// complete up to the transaction it names
 			monitor.LastTransactionID = reply.LastTransactionID
-			lastTransactionFound = true
+			lastTransactionFound = reply.Found
 		}
 		tableUpdates = reply.Updates
 	default:
